@@ -291,8 +291,7 @@ def main():
     root = Path(tempfile.mkdtemp(prefix="xvhist-"))
     datadir = root / "data"
     datadir.mkdir()
-    for i in range(8):
-        (datadir / f"f{i}.bin").write_bytes(f"content of data file {i}\n".encode() * (i + 1))
+    S.make_data_files(datadir)
     out = []
     try:
         mods = [load_lib(lib, root) for lib in data["libs"]]
